@@ -317,11 +317,14 @@ func cliRunPool(name string, args []string, cases []json.RawMessage, workers int
 // ---------- child side ----------
 
 // cliChildLoop is the body of a `vh child <name>` process: cases in on stdin, results out on stdout.
-func cliChildLoop(run func(idx int, c json.RawMessage) (res any, exit bool)) {
+// With gcOff the collector is disabled (C20 meters allocation as a TotalAlloc delta and collects by hand).
+func cliChildLoop(gcOff bool, run func(idx int, c json.RawMessage) (res any, exit bool)) {
 	// hard data-segment limit (RLIMIT_DATA counts committed private writable memory, not the runtime's address-space reservations): an absurd count that allocates kills this child, not the harness
 	lim := syscall.Rlimit{Cur: 1 << 30, Max: 1 << 30}
 	syscall.Setrlimit(syscall.RLIMIT_DATA, &lim)
-	debug.SetGCPercent(-1)
+	if gcOff {
+		debug.SetGCPercent(-1)
+	}
 	if pf := os.Getenv("VH_CPUPROFILE"); pf != "" {
 		f, _ := os.Create(pf)
 		pprof.StartCPUProfile(f)
